@@ -118,7 +118,11 @@ pub(crate) fn on_remove_worker(
                             worker.reset_mn_task();
                         }
                         task.state = TaskRuntimeState::Waiting { unfinished_deps: 0 };
-                        running_tasks.push(mn.task_id);
+                        // The start of the task was announced to the client only if the root
+                        // worker has reported it; otherwise the task was merely placed here
+                        if mn.is_started {
+                            running_tasks.push(mn.task_id);
+                        }
                         task.increment_instance_id();
                         task_queues.add_ready_task(task, &mut retracted);
                     } else {
@@ -351,6 +355,7 @@ fn task_running(
             // we already have this task in running state
             // So we do nothing here
             assert_eq!(ws[0], worker_id);
+            worker_map.get_worker_mut(worker_id).set_mn_task_started();
             (ws.as_slice(), false)
         }
         TaskRuntimeState::Running { .. }
